@@ -23,6 +23,7 @@ import (
 	"encoding/json"
 	"fmt"
 	"math/rand/v2"
+	"net"
 	"os"
 	"strconv"
 	"strings"
@@ -31,6 +32,7 @@ import (
 	"time"
 
 	"github.com/miekg/dns"
+	"github.com/semihalev/sdns/server"
 	"github.com/semihalev/sdns/zzverif/authsim"
 	"github.com/semihalev/sdns/zzverif/replycontract"
 	"github.com/semihalev/sdns/zzverif/vlib"
@@ -91,6 +93,7 @@ func genCase(r *vlib.Run, index int) *CaseSpec {
 	needV6 := k.NeedV6 != nil && k.NeedV6(variant)
 	c := &CaseSpec{Seed: r.Seed, Index: index, Kind: k.Name, Family: k.Family, Variant: variant}
 	c.World = genWorld(rng, needV6)
+	k.shapeWorld(variant, &c.World)
 	c.V6 = c.World.IPv6
 	c.Target = "evil"
 	if rng.IntN(2) == 0 {
@@ -98,6 +101,24 @@ func genCase(r *vlib.Run, index int) *CaseSpec {
 	}
 	c.Label = "attack:" + k.Name + "/" + variant
 	return c
+}
+
+// shapeWorld applies the kind's requirements to a generated (or replayed) world.
+func (k *attackKind) shapeWorld(variant string, ws *WorldSpec) {
+	if k.NeedV6 != nil && k.NeedV6(variant) {
+		ws.IPv6 = true
+	}
+	if k.Deep {
+		ws.Deep = true
+	}
+	if k.Unsigned && ws.Mode == "signed" {
+		ws.Mode = "insecure"
+	}
+	if k.QMin != nil {
+		if v, ok := k.QMin(variant); ok {
+			ws.QMin = v
+		}
+	}
 }
 
 type question struct {
@@ -149,6 +170,18 @@ var victimQuestions = []struct {
 	{zTLD, dns.TypeNS},
 }
 
+// deepQuestions are asked in addition in deep worlds: honest names the deep
+// zone's server has no say about (partner.test. is reachable only through the
+// honest address of ns.sib.b.corp.test.).
+var deepQuestions = []struct {
+	name string
+	t    uint16
+}{
+	{"www.partner.test.", dns.TypeA},
+	{sibNS, dns.TypeA},
+	{"www.corp.test.", dns.TypeA},
+}
+
 type caseRun struct {
 	r       *vlib.Run
 	c       *CaseSpec
@@ -158,31 +191,111 @@ type caseRun struct {
 	id      uint16
 	sinkAt  int // packet-log position up to which sink packets were reported
 	started int
+	asked   int // victim follow-up questions asked so far (every third one enters by the wire)
 }
 
 func (cr *caseRun) ask(q question) (*dns.Msg, int) {
 	cr.id++
-	m := q.msg(cr.id)
+	from := cr.w.u.Log.Len()
+	return cr.serveDecoded(q.msg(cr.id)), from
+}
+
+// serveDecoded enters through Server.ServeMsg (the decoded entry DoH/DoQ use).
+func (cr *caseRun) serveDecoded(m *dns.Msg) *dns.Msg {
 	qb, _ := m.Pack()
 	t := authsim.NewRecTransport("tcp", clientAddr)
-	from := cr.w.u.Log.Len()
 	cr.st.Server.ServeMsg(context.Background(), t, m)
 	replies := t.Replies()
 	if len(replies) != 1 {
 		cr.r.Count("replies_not_exactly_one", 1)
 	}
 	if len(replies) == 0 || replies[0] == nil {
-		return nil, from
+		return nil
 	}
 	if len(t.Raws) > 0 && t.Raws[0] != nil && qb != nil {
-		for _, b := range replycontract.Check("tcp", qb, t.Raws[0], replycontract.Options{ClientIP: "127.0.0.1"}) {
-			if !b.Info {
-				cr.r.Count("contract_breaches", 1)
-				cr.r.Count("contract_breach/"+b.Rule, 1)
-			}
+		cr.contract(qb, t.Raws[0])
+	}
+	return replies[0]
+}
+
+func (cr *caseRun) contract(qb, raw []byte) {
+	for _, b := range replycontract.Check("tcp", qb, raw, replycontract.Options{ClientIP: "127.0.0.1"}) {
+		if !b.Info {
+			cr.r.Count("contract_breaches", 1)
+			cr.r.Count("contract_breach/"+b.Rule, 1)
 		}
 	}
-	return replies[0], from
+}
+
+// askWire enters through Server.ServeRaw with a strict job (the wire-born
+// entry the owned UDP/TCP engines use; TCP flavour, so nothing is truncated).
+func (cr *caseRun) askWire(q question) (*dns.Msg, int) {
+	cr.id++
+	from := cr.w.u.Log.Len()
+	qb, err := q.msg(cr.id).Pack()
+	if err != nil {
+		return nil, from
+	}
+	host, port, _ := net.SplitHostPort(clientAddr)
+	p, _ := strconv.Atoi(port)
+	job := server.VerifNewStrictJob(&net.TCPAddr{IP: net.ParseIP(host), Port: p})
+	cr.st.Server.ServeRaw(job, qb, time.Now())
+	cr.r.Count("wire_entry_queries", 1)
+	if job.VerifUsedStrict() {
+		cr.r.Count("wire_entry_strict_path_taken", 1)
+	}
+	if len(job.Writes) != 1 {
+		cr.r.Count("replies_not_exactly_one", 1)
+	}
+	if len(job.Writes) == 0 {
+		return nil, from
+	}
+	raw := job.Writes[0]
+	m := new(dns.Msg)
+	if err := m.Unpack(raw); err != nil {
+		cr.r.Count("wire_entry_unparsable_reply", 1)
+		return nil, from
+	}
+	cr.contract(qb, raw)
+	return m, from
+}
+
+// pending is a client query running in its own goroutine (the harness holds
+// the upstream it waits for at a gate).
+type pending struct {
+	from int
+	done chan struct{}
+	msg  *dns.Msg
+}
+
+func (cr *caseRun) start(q question) *pending {
+	cr.id++
+	m := q.msg(cr.id)
+	h := &pending{from: cr.w.u.Log.Len(), done: make(chan struct{})}
+	go func() {
+		defer close(h.done)
+		h.msg = cr.serveDecoded(m)
+	}()
+	return h
+}
+
+func (h *pending) finished() bool {
+	select {
+	case <-h.done:
+		return true
+	default:
+		return false
+	}
+}
+
+func (h *pending) wait() *dns.Msg { <-h.done; return h.msg }
+
+// sigKind is the kind component of violation signatures.
+func (cr *caseRun) sigKind() string {
+	if k := cr.c.kind(); k != nil && k.SigVariant {
+		return cr.c.Kind + "/" + strings.TrimSuffix(cr.c.Variant, "/qmin")
+	}
+	return cr.c.Kind
 }
 
 func (cr *caseRun) violation(sig, what, phase string, q question, reply *dns.Msg, from int) {
@@ -227,19 +340,19 @@ func (cr *caseRun) judgeTrigger(phase string, q question, reply *dns.Msg, from i
 	}
 	switch {
 	case a != nil && cr.c.Family == "spoof":
-		cr.violation(vlib.Sig("spoof-accepted", cr.c.Kind, cls), "a datagram with the wrong id/question (evil-marked) was accepted as the reply: "+a.String(), phase, q, reply, from)
+		cr.violation(vlib.Sig("spoof-accepted", cr.sigKind(), cls), "a datagram with the wrong id/question (evil-marked) was accepted as the reply: "+a.String(), phase, q, reply, from)
 	case a != nil && reply.AuthenticatedData:
 		// kept apart from the unauthenticated relay so that a known-finding
 		// entry for the latter can never hide attacker data served with AD=1
-		cr.violation(vlib.Sig("evil-in-authenticated-answer", cr.c.Kind, cls), "an out-of-zone record sent by the server of "+zEvil+" is in the client's answer section of a reply with AD=1: "+a.String(), phase, q, reply, from)
+		cr.violation(vlib.Sig("evil-in-authenticated-answer", cr.sigKind(), cls), "an out-of-zone record sent by the server of "+zEvil+" is in the client's answer section of a reply with AD=1: "+a.String(), phase, q, reply, from)
 	case a != nil:
-		cr.violation(vlib.Sig("evil-in-answer", cr.c.Kind, cls), "an out-of-zone record sent by the server of "+zEvil+" is in the client's answer section: "+a.String(), phase, q, reply, from)
+		cr.violation(vlib.Sig("evil-in-answer", cr.sigKind(), cls), "an out-of-zone record sent by the server of "+zEvil+" is in the client's answer section: "+a.String(), phase, q, reply, from)
 	case (n != nil || e != nil) && len(reply.Answer) > 0:
 		rr := n
 		if rr == nil {
 			rr = e
 		}
-		cr.violation(vlib.Sig("evil-in-aux-of-positive", cr.c.Kind, cls), "authority/additional data of the attacker survived in a positive answer: "+rr.String(), phase, q, reply, from)
+		cr.violation(vlib.Sig("evil-in-aux-of-positive", cr.sigKind(), cls), "authority/additional data of the attacker survived in a positive answer: "+rr.String(), phase, q, reply, from)
 	case n != nil || e != nil:
 		// negative / empty replies: the attacker's own authority section for
 		// his own name is not "the answer" — observed, not judged
@@ -308,7 +421,7 @@ func (cr *caseRun) judgeVictim(phase string, q question, reply *dns.Msg, from in
 		if rr == nil {
 			rr, sec = e, "additional"
 		}
-		cr.violation(vlib.Sig("victim-poisoned", cr.c.Kind, sec), "a reply for victim name "+q.Name+" "+tname+" carries attacker data: "+rr.String(), phase, q, reply, from)
+		cr.violation(vlib.Sig("victim-poisoned", cr.sigKind(), sec), "a reply for victim name "+q.Name+" "+tname+" carries attacker data: "+rr.String(), phase, q, reply, from)
 		return
 	}
 	if reply.Rcode == dns.RcodeServerFailure {
@@ -325,15 +438,31 @@ func (cr *caseRun) judgeVictim(phase string, q question, reply *dns.Msg, from in
 			fmt.Fprintf(os.Stderr, "  victim diff: %s\n", diff)
 		}
 	}
-	cr.violation(vlib.Sig("victim-not-truth", cr.c.Kind, tname), "a reply for victim name "+q.Name+" "+tname+" is neither the honest zone's truth nor SERVFAIL (rcode "+dns.RcodeToString[reply.Rcode]+")", phase, q, reply, from)
+	cr.violation(vlib.Sig("victim-not-truth", cr.sigKind(), tname), "a reply for victim name "+q.Name+" "+tname+" is neither the honest zone's truth nor SERVFAIL (rcode "+dns.RcodeToString[reply.Rcode]+")", phase, q, reply, from)
 }
 
 func (cr *caseRun) victimRound(phase string) {
-	for _, vq := range victimQuestions {
+	qs := victimQuestions
+	if cr.c.World.Deep {
+		qs = append(append(qs[:0:0], qs...), deepQuestions...)
+	}
+	for _, vq := range qs {
 		q := randFlags(cr.rng, vq.name, vq.t)
-		reply, from := cr.ask(q)
+		// a third of the follow-ups enter by the wire (strict-job) entry, the
+		// rest by the decoded entry; the offset varies with the case
+		var reply *dns.Msg
+		var from int
+		via := "decoded"
+		if (cr.asked+cr.c.Index)%3 == 0 {
+			via = "wire"
+			reply, from = cr.askWire(q)
+		} else {
+			reply, from = cr.ask(q)
+		}
+		cr.asked++
+		cr.r.Count("victim_replies_judged_via/"+via, 1)
 		cr.judgeVictim(phase, q, reply, from)
-		cr.dbg(phase, q, reply, from)
+		cr.dbg(phase+"/"+via, q, reply, from)
 	}
 	cr.sinkCheck(phase)
 }
@@ -378,7 +507,7 @@ func (cr *caseRun) sinkCheck(phase string) {
 	}
 	cr.r.Count("sink_packets", len(hits))
 	p := hits[0]
-	cr.violation(vlib.Sig("sink-contacted", cr.c.Kind), fmt.Sprintf("the SINK (an address only the attacker advertised, or an unusable loopback/local address) received %d packet(s), first: %s", len(hits), p.String()),
+	cr.violation(vlib.Sig("sink-contacted", cr.sigKind()), fmt.Sprintf("the SINK (an address only the attacker advertised, or an unusable loopback/local address) received %d packet(s), first: %s", len(hits), p.String()),
 		phase, question{Name: p.QNameL, Type: p.QType}, nil, p.Seq)
 }
 
@@ -447,7 +576,13 @@ func runCase(r *vlib.Run, c *CaseSpec) {
 	// ---- the attack ---------------------------------------------------------
 	k.Install(w, c)
 	from := w.u.Log.Len()
-	attackQ, attackReply := cr.triggerRound("attack")
+	var attackQ question
+	var attackReply *dns.Msg
+	if k.Attack != nil {
+		attackQ, attackReply = k.Attack(cr)
+	} else {
+		attackQ, attackReply = cr.triggerRound("attack")
+	}
 	delivered := cr.delivered(from)
 	r.Count("evil_server_packets", w.u.Log.Count(from, "evil1", "", 0)+w.u.Log.Count(from, "evil2", "", 0))
 	if delivered == 0 {
@@ -458,6 +593,11 @@ func runCase(r *vlib.Run, c *CaseSpec) {
 		r.Count("attack_responses_delivered", delivered)
 		r.Count("delivered/"+c.Kind, 1)
 		r.Count("delivered_family/"+c.Family, 1)
+		if c.Kind == "glue-local-interface" && c.Note == "" {
+			// glue / resolved NS addresses that really are this host's own
+			r.Count("local_interface_glue_cases", 1)
+			r.Count("local_interface_addresses_advertised", strings.Count(c.Addr, ",")+1)
+		}
 		r.Distinct(c.Kind + "|" + c.Variant + "|" + c.World.Mode + "|" + c.Target + "|" + strconv.Itoa(c.World.QMin))
 		r.DistinctIn("kind_variant", c.Kind+"|"+c.Variant)
 		if sampled.CompareAndSwap(false, true) {
@@ -471,13 +611,13 @@ func runCase(r *vlib.Run, c *CaseSpec) {
 			}
 			sample = map[string]any{
 				"index": c.Index, "kind": c.Kind, "variant": c.Variant, "world": c.World.String(), "glue_target": c.Target,
-				"attack_script":              c.Label,
-				"evil_messages_built":        w.sentSummaries(),
-				"attack_responses_delivered": delivered,
-				"client_query":               attackQ.String(),
-				"client_reply":               summarize(attackReply),
+				"attack_script":                  c.Label,
+				"evil_messages_built":            w.sentSummaries(),
+				"attack_responses_delivered":     delivered,
+				"client_query":                   attackQ.String(),
+				"client_reply":                   summarize(attackReply),
 				"upstream_packets_during_attack": up,
-				"sink_packets":               len(w.u.Log.SinkHits(cr.started)),
+				"sink_packets":                   len(w.u.Log.SinkHits(cr.started)),
 			}
 		}
 	}
@@ -546,9 +686,7 @@ func main() {
 			if c.Target != "sink" {
 				c.Target = "evil"
 			}
-			if c.kind().NeedV6 != nil && c.kind().NeedV6(c.Variant) {
-				c.World.IPv6 = true
-			}
+			c.kind().shapeWorld(c.Variant, &c.World)
 			c.V6 = c.World.IPv6
 			c.Phase, c.Query, c.Reply, c.Upstream, c.Sink, c.Script, c.Note, c.Addr = "", "", "", nil, nil, nil, "", ""
 		}
@@ -625,6 +763,26 @@ func main() {
 	r.Require("sink_checks", int64(nCases*5))
 	for _, f := range []string{"spoof", "answer", "authority", "referral", "glue"} {
 		r.Require("delivered_family/"+f, int64(rounds))
+	}
+	// a third of the victim follow-ups by the wire entry, on the strict path
+	// (at least three victim rounds per case)
+	r.Require("victim_replies_judged_via/wire", int64(nCases*len(victimQuestions)*9/10))
+	r.Require("victim_replies_judged_via/decoded", int64(nCases*len(victimQuestions)*2*9/10))
+	r.Require("wire_entry_strict_path_taken", int64(nCases*len(victimQuestions)))
+	// provisional-delegation window (glue-partial-provisional)
+	r.Require("provisional_windows_opened", int64(rounds/2))
+	r.Require("provisional_window_client_answers_with_foreign_tail", int64(rounds/2))
+	r.Require("ns_address_subquery_answers_with_foreign_tail", int64(rounds/2))
+	// deep cached delegation
+	r.Require("deep_delegation_warmed", int64(rounds))
+	r.Require("deep_resolutions_started_at_cached_cut", int64(rounds/2))
+	r.Require("deep_jumps_to_cached_delegation", int64(rounds/2))
+	r.Require("deep_jumps_of_two_labels", int64(rounds/3))
+	// this host's own interface addresses as glue / resolved NS addresses
+	if len(allLocalInterfaceAddrs()) > 0 {
+		r.Require("local_interface_glue_cases", 1)
+	} else {
+		r.Assume("this host has no non-loopback interface address: the local-interface glue cases fell back to loopback addresses (local_interface_glue_cases = 0)")
 	}
 	r.Finish(rule)
 }
